@@ -234,7 +234,8 @@ def strat_numpy(draw, tier=None):
                          max_size=n))
     return {"signed": signed, "n_bits": n_bits, "n_frac": n_frac,
             "shape": shape, "values": vals,
-            "float32": draw(st.integers(0, 5)) == 0}
+            "float32": draw(st.integers(0, 5)) == 0,
+            "layout": draw(st.sampled_from(["C", "C", "F", "T", "strided"]))}
 
 
 def check_numpy(case):
@@ -248,6 +249,16 @@ def check_numpy(case):
     with np.errstate(all="ignore"):
         arr = np.array(vals, dtype=np.float64).astype(dt).reshape(
             case["shape"])
+    # memory layouts other than a fresh C-contiguous array
+    layout = case.get("layout", "C")
+    if layout == "F" and arr.ndim >= 2:
+        arr = np.asfortranarray(arr)
+    elif layout == "T" and arr.ndim >= 2:
+        arr = np.ascontiguousarray(arr.T).T
+    elif layout == "strided" and arr.ndim >= 1:
+        wide = np.zeros(arr.shape[:-1] + (2 * arr.shape[-1],), dtype=dt)
+        wide[..., ::2] = arr
+        arr = wide[..., ::2]
     if case["float32"]:
         if not np.all(np.isfinite(arr)):
             return {"nontrivial": False, "classes": ["float32-overflow"]}
@@ -281,7 +292,8 @@ def check_numpy(case):
                      scalar=int(f(v)), expected=want))
         nt = nt or _near_end(signed, n_bits, n_frac, v)
     return {"nontrivial": nt and len(flat_in) > 0,
-            "classes": ["bits%d" % n_bits, "ndim%d" % len(case["shape"])] +
+            "classes": ["bits%d" % n_bits, "ndim%d" % len(case["shape"]),
+                        "layout-" + layout] +
                        (["float32"] if case["float32"] else []) +
                        (["empty"] if not flat_in else [])}
 
